@@ -323,6 +323,11 @@ def worker(task):
 
 def _apply_mutation(mutation):
     """In-memory AST mutation of a repo function (canary guard): (module, qualname, old, new) textual."""
+    if mutation[0] == "ast":
+        # a whole mutated function (tools/mutate.py): ("ast", module, qualname, source text)
+        _, modname, qualname, src = mutation
+        source.load_module(modname).defs[qualname] = ast.parse(src).body[0]
+        return
     modname, qualname, old, new = mutation
     mod = source.load_module(modname)
     if qualname in mod.defs:
